@@ -9,7 +9,15 @@ fn tables() -> crate::cfgs::Tables {
     t.small_int_pow10 = SMALL_INT_POW10.to_vec();
     t.small_f32_pow10 = SMALL_F32_POW10.iter().map(|f| f.to_bits()).collect();
     t.small_f64_pow10 = SMALL_F64_POW10.iter().map(|f| f.to_bits()).collect();
-    t.large_pow5 = LARGE_POW5.to_vec();
+    // as little-endian u64 limbs whatever the crate's limb width is
+    t.large_pow5 = {
+        let l: Vec<u64> = LARGE_POW5.iter().map(|&x| x as u64).collect();
+        if core::mem::size_of_val(&LARGE_POW5[0]) == 8 {
+            l
+        } else {
+            l.chunks(2).map(|c| c[0] | c.get(1).copied().unwrap_or(0) << 32).collect()
+        }
+    };
     t.large_pow5_step = LARGE_POW5_STEP;
     for q in SMALLEST_POWER_OF_FIVE..=LARGEST_POWER_OF_FIVE {
         let fp = ml::lemire::compute_error_scaled::<f64>(q, 1u64 << 63, 0);
